@@ -6,6 +6,62 @@ import os
 ROOT = os.path.dirname(os.path.dirname(os.path.abspath(__file__)))
 
 CHECKS = {
+    "C01": dict(
+        cat="model_checking", ref="DESIGN.md 5/C01",
+        technique="TLA+ reference telegram parser (RecvMon, spec/BusMonitors.tla) model-checked by TLC on the transition graph "
+                  "extracted to a fix-point from the real DirectProtocolHandler (P-on-G, spec/ProtoGraph.tla)",
+        text="The real handler + device are stepped over an environment that at every position offers the well-formed continuation "
+             "or a fault (SYN, timeout, junk, bad CRC, NAK, invalid escape, non-master/self/own addresses); the reachable graph is "
+             "closed (fix-point), so the monitor verdict holds for streams of any length over that alphabet; soundness, completeness "
+             "and no-duplicate clauses are invariants of the product.",
+        note="Assumes data independence inside a byte class (one representative per class, NN <= 1 quick / 2 thorough) and a complete "
+             "state projection; both are bounds of the search, never part of the oracle."),
+    "C02": dict(
+        cat="model_checking", ref="DESIGN.md 5/C02",
+        technique="TLA+ reference sender/verdict monitor (SendMon) model-checked by TLC on the real handler's extracted transition graph",
+        text="For requests with escapes in data, every responder behaviour at every step (ACK/NAK/junk/SYN/silence, good/bad/escaped "
+             "response CRC) and echo faults on every written byte are explored to a fix-point; SendMon fixes the admissible byte "
+             "sequence, the ACK/NAK duty, the final SYN and the completion verdict (OK iff valid exchange, md_send iff OK).",
+        note="Same alphabet/projection assumptions as C01; request shapes are the configured ones (MS with escape, broadcast, MM)."),
+    "C03": dict(
+        cat="model_checking", ref="DESIGN.md 5/C03",
+        technique="TLA+ entitlement monitor (TxMon rules a-d, with RecvMon/ReqMon as inputs) model-checked by TLC on the real handler's graph",
+        text="Every byte the real stack writes is judged: arbitration only directly after SYN with a pending request and an expired "
+             "lock counter (>= 1 further SYN after a lost arbitration, configured count against another priority class), continuation "
+             "only while every echo matched, answers only at the acknowledge position of a telegram to a registered address, AUTO-SYN "
+             "only after the interval of silence, nothing in read-only mode.",
+        note="Collision winners, submission points and passive traffic are the configured alphabets; initialSend is off (outside the property)."),
+    "C04": dict(
+        cat="model_checking", ref="DESIGN.md 5/C04",
+        technique="TLA+ request life-cycle monitor (ReqMon) model-checked by TLC on the real handler's graph with fault injection "
+                  "(read/write errors, signal loss, lost arbitration, submissions before steps and inside the ps_empty callback)",
+        text="Exactly-once completion, no completion of idle requests, delete only after the final notify of self-deleting requests, "
+             "waiter released with its own result, no pending request after signal loss; all interleavings of queue operations that "
+             "the step harness can produce are in the graph.",
+        note="Thread schedules are represented by the atomic queue operations (submission before a step / inside the callback / "
+             "after a step); the real run() thread is not part of the graph extraction."),
+    "C15": dict(
+        cat="model_checking", ref="DESIGN.md 5/C15",
+        technique="TLA+ reference answerer (AnswerMon: longest-prefix match, ACK, escaped response + CRC, one repetition) + TxMon "
+                  "model-checked by TLC on the real handler's graph in answer mode",
+        text="Tables with several ID lengths; telegrams with shorter/longer data, good/bad CRC, NAK of the response; both directions "
+             "are checked: what is answered must be registered (longest prefix) and what is registered must be answered.",
+        note="A bad-CRC master part may be answered with NAK or left alone (the property text is read leniently there)."),
+    "C18": dict(
+        cat="exploration", ref="DESIGN.md 5/C18",
+        technique="explicit TLA+ oracle (ReqParse) + TLC-generated cases + conformance harness; TLC judges records",
+        text="TLC enumerates argument lists with all client encodings, URIs (<=4 tokens, all <=5/6 chars, seeded longer) "
+             "and matchable topic templates x triples; the harness replays them on RequestImpl::add/split, "
+             "MainLoop::decodeRequest->executeGet (in-process daemon, model file system from the spec) and StringReplacer; "
+             "TLC judges every record and asserts domain completeness",
+        note="MQTT bound at StringReplacer level; query part and malformed-escape decoding unspecified; known finding: %3f in a path"),
+    "C19": dict(
+        cat="exploration", ref="DESIGN.md 5/C19",
+        technique="explicit TLA+ oracle (Csv) + TLC-generated field lists and definition sets + conformance harness; TLC judges records",
+        text="splitFields on every quoting of every field list; load spec text -> attributes -> dump (--dumpconfig and find -f "
+             "paths) -> reload -> attributes -> dump; TLC checks attributes = definition, dump columns = definition under the "
+             "spec's reader, idempotence",
+        note="12 representative types, no level/range/condition/templates/defaults; fields compared up to outer blanks"),
     "C11": dict(
         cat="exploration", ref="DESIGN.md 5/C11",
         technique="TLA+ definitional oracle (EbusSymbols.tla: CRC by polynomial division, escape automaton, nibble classes) "
@@ -73,7 +129,7 @@ def main():
         f.write("\n")
 
 
-HOOK_COMMITS = []
+HOOK_COMMITS = ["54407b0", "421500e"]
 
 if __name__ == "__main__":
     main()
